@@ -684,7 +684,7 @@ val resize : tcfg -> (z -> z option) -> nat -> z -> elem -> unit m
 val gen_elem : answer list -> (elem * answer list) m
 
 val resize_with_loop :
-  tcfg -> (z -> z option) -> nat -> nat -> answer list -> unit m
+  tcfg -> (z -> z option) -> nat -> nat -> z -> z -> answer list -> unit m
 
 val resize_with : tcfg -> (z -> z option) -> nat -> z -> answer list -> unit m
 
